@@ -131,3 +131,32 @@ func HarnessC15PeriodicOnce() {
 	vndAssert(!late, "nothing-exported-after-shutdown-returned")
 	vndAssert(sd2 == 1, "exporter-shut-down-exactly-once")
 }
+
+// C15.periodic-cancelled: Shutdown with an already-cancelled context while an
+// interval collection may be in flight: whatever Shutdown returns, no export
+// begins after it has returned, the exporter is shut down exactly once, and a
+// later Shutdown is a harmless documented error
+func HarnessC15PeriodicCancelled() {
+	e := &c15Exporter{}
+	r := NewPeriodicReader(e, WithInterval(time.Second), WithTimeout(time.Hour))
+	mp := c15MeterProvider(r)
+	c, err := mp.Meter("m").Int64Counter("c")
+	vndAssert(err == nil, "instrument-created")
+	c.Add(context.Background(), 1)
+	ctx, cancel := context.WithCancel(context.Background())
+	cancel()
+	vndYield() // the interval may elapse here
+	mp.Shutdown(ctx)
+	e.mu.Lock()
+	e.stopped = true
+	e.mu.Unlock()
+	vndReach("shutdown-returned")
+	vndYield()
+	c.Add(context.Background(), 1)
+	vndAssert(errors.Is(mp.Shutdown(context.Background()), ErrReaderShutdown), "second-shutdown-returns-documented-error")
+	e.mu.Lock()
+	late, sd := e.late, e.shutdowns
+	e.mu.Unlock()
+	vndAssert(!late, "nothing-exported-after-shutdown-returned")
+	vndAssert(sd == 1, "exporter-shut-down-exactly-once")
+}
